@@ -212,9 +212,11 @@ func (v *mapView) contents() *contents {
 
 type filterView struct {
 	inner view
-	desc  string
-	pred  func(string) bool
-	r     storage.ReadBucket
+	// hidden is a path the filter excludes by name ("" if the matcher is not about one path)
+	hidden string
+	desc   string
+	pred   func(string) bool
+	r      storage.ReadBucket
 }
 
 func (v *filterView) label() string                 { return "filter[" + v.desc + "](" + v.inner.label() + ")" }
@@ -376,7 +378,11 @@ type sim struct {
 // siblings whose names extend a directory's name with a character that sorts below '/'
 // ("a-b", "a.d", "a.txt" next to "a/") separate path-wise from string-wise prefix handling
 var universeDirs = []string{"a", "a/x", "b", "b/y", "c", "a-b", "a.d", "b/y.z", ".cfg", ".a", "a/.x"}
-var universeNames = []string{"one.proto", "two.proto", "three.txt", "four", "five.proto", "a.txt", "one.proto.bak", "x.y", "sp ace.txt", "two  spaces.proto", "ünï.proto", " lead", "trail ", ".hidden", ".one.proto", "back\\slash.txt", "a\\b.proto"}
+var universeNames = []string{"one.proto", "two.proto", "three.txt", "four", "five.proto", "a.txt", "one.proto.bak", "x.y", "sp ace.txt", "two  spaces.proto", "ünï.proto", " lead", "trail ", ".hidden", ".one.proto", "back\\slash.txt", "a\\b.proto", "...", "..a", "a..b", "-dash", "~tilde", "%2e%2e", "x" + longName, ".tmpl", ".tmp.proto"}
+
+// longName is as long as a file name may be minus one.
+var longName = strings.Repeat("n", 200)
+
 var mapPrefixes = []string{"a", "a/x", "b", "zz", ".", ".cfg"}
 
 // C13 is about containment only: when this engine runs on its behalf, a bucket that merely
@@ -578,7 +584,19 @@ func (m *sim) buildViews() {
 			m.views = append(m.views, mv)
 		case 2:
 			fv := &filterView{inner: inner}
-			switch m.tp.Draw("matcher", 5) {
+			switch m.tp.Draw("matcher", 8) {
+			case 5:
+				fv.hidden = "b/five.proto"
+				fv.desc, fv.pred = "equal(a/x/one.proto)", func(p string) bool { return p == "a/x/one.proto" }
+				fv.r = storage.FilterReadBucket(inner.rb(), storage.MatchPathEqual("a/x/one.proto"))
+			case 6:
+				fv.hidden = "b/five.proto"
+				fv.desc, fv.pred = "not(equal(b/five.proto))", func(p string) bool { return p != "b/five.proto" }
+				fv.r = storage.FilterReadBucket(inner.rb(), storage.MatchNot(storage.MatchPathEqual("b/five.proto")))
+			case 7:
+				fv.hidden = "a/x/one.proto"
+				fv.desc, fv.pred = "not(eqOrContained(a/x))", func(p string) bool { return !(p == "a/x" || strings.HasPrefix(p, "a/x/")) }
+				fv.r = storage.FilterReadBucket(inner.rb(), storage.MatchNot(storage.MatchPathEqualOrContained("a/x")))
 			case 0:
 				fv.desc, fv.pred = "ext=.proto", func(p string) bool { return strings.HasSuffix(p, ".proto") }
 				fv.r = storage.FilterReadBucket(inner.rb(), storage.MatchPathExt(".proto"))
@@ -767,6 +785,12 @@ func (m *sim) stepGetOpen(v view) {
 		if err == nil {
 			data, _ := io.ReadAll(roc)
 			_ = roc.Close()
+			if fv, isFilter := v.(*filterView); isFilter {
+				if _, hidden := fv.inner.contents().objs[norm]; hidden {
+					// the object exists below the view but the view does not contain it
+					m.violate("nothing-outside-root-read", site+"|filter", "Get(%q) on %s returned an object that the filter excludes", p, v.label())
+				}
+			}
 			if string(data) == "outer" {
 				m.violate("nothing-outside-root-read", site, "Get(%q) on %s returned the content of a file outside the root", p, v.label())
 			}
@@ -852,6 +876,11 @@ func (m *sim) stepStat(v view) {
 		}
 	case !ok:
 		if err == nil {
+			if fv, isFilter := v.(*filterView); isFilter {
+				if _, hidden := fv.inner.contents().objs[norm]; hidden {
+					m.violate("nothing-outside-root-read", "stat|filter", "Stat(%q) on %s found an object that the filter excludes", p, v.label())
+				}
+			}
 			m.violate("stat-matches-model", "stat", "Stat(%q) on %s found an object the model does not have", p, v.label())
 		} else if !storage.IsNotExist(err) {
 			m.violate("notexist-classified", "stat", "Stat(%q) on %s: absent object reported as %v instead of not-exist", p, v.label(), err)
@@ -1778,6 +1807,45 @@ func (m *sim) stepUnionRevisit() {
 	m.s.Probe("union-revisited")
 }
 
+// stepFilterHidden asks a filtered view, in several equivalent spellings, for an object that exists
+// below it but that its matcher excludes by name: every spelling denotes the same (excluded) object.
+func (m *sim) stepFilterHidden() {
+	var filters []*filterView
+	for _, v := range m.views {
+		if fv, ok := v.(*filterView); ok && fv.hidden != "" {
+			filters = append(filters, fv)
+		}
+	}
+	if len(filters) == 0 {
+		return
+	}
+	fv := filters[m.tp.Draw("hidden-view", len(filters))]
+	defer func() { m.forcePath = "" }()
+	if fv.inner.wb() != nil {
+		// make sure the excluded object exists below the view
+		m.forcePath = fv.hidden
+		before := len(m.puts)
+		m.stepPutOpen(fv.inner)
+		if len(m.puts) == before+1 {
+			h := m.puts[before]
+			m.stepWrite(h)
+			m.stepClose(h, before)
+		}
+	}
+	dir, base := filepath.Dir(fv.hidden), filepath.Base(fv.hidden)
+	for _, spelled := range []string{fv.hidden, "./" + fv.hidden, fv.hidden + "/.", dir + "/q/../" + base, dir + "//" + base, "q/../" + fv.hidden} {
+		m.forcePath = spelled
+		m.stepStat(fv)
+		m.stepGetOpen(fv)
+		if n := len(m.gets); n > 0 && m.gets[n-1].v == view(fv) {
+			for len(m.gets) == n {
+				m.stepRead(m.gets[n-1], n-1)
+			}
+		}
+	}
+	m.s.Probe("filter-excluded-object-asked-for")
+}
+
 // stepCachedModule: a cached module's marker file names the directory that holds its files. That
 // name comes from the disk, not from buf: a marker whose files_dir leaves the module's own directory
 // (pointing at a perfectly valid copy of the files elsewhere in the cache, so that no digest check can
@@ -2246,7 +2314,7 @@ func Run(tp *tape.Tape, env *engine.Env) *engine.Outcome {
 				m.stepPluginResponse(v)
 			}
 		case op == 19 && tp.Draw("special19", 4) == 3:
-			switch tp.Draw("which19", 7) {
+			switch tp.Draw("which19", 9) {
 			case 0:
 				name = "foreign-archive"
 				m.stepForeignArchive()
@@ -2262,6 +2330,9 @@ func Run(tp *tape.Tape, env *engine.Env) *engine.Outcome {
 			case 4, 5:
 				name = "union-revisit"
 				m.stepUnionRevisit()
+			case 6, 7:
+				name = "filter-hidden"
+				m.stepFilterHidden()
 			default:
 				name = "concurrent"
 				m.stepConcurrent()
